@@ -81,27 +81,35 @@ pub fn run_campaigns(ctx: &RunCtx, campaigns: &[Campaign]) -> Result<Value, Fail
                 .arg("-len_control=0")
                 .arg("-print_final_stats=1")
                 .arg(format!("-artifact_prefix={}/", arts.display()))
-                .stdout(Stdio::null())
-                .stderr(Stdio::piped());
+                .stdout(Stdio::null());
+            // libFuzzer is chatty on stderr: a pipe would fill up while another worker is being
+            // waited for, so each worker logs to its own file
+            let log = work.join(format!("worker{}.log", w));
+            match std::fs::File::create(&log) {
+                Ok(f) => {
+                    cmd.stderr(Stdio::from(f));
+                }
+                Err(e) => inconclusive(&format!("create {}: {}", log.display(), e)),
+            }
             if !c.dict.is_empty() {
                 cmd.arg(format!("-dict={}", fuzz_dir().join("dict").join(c.dict).display()));
             }
-            children.push((w, arts, cmd.spawn().unwrap_or_else(|e| inconclusive(&format!("spawn fuzz target: {}", e)))));
+            children.push((w, arts, log, cmd.spawn().unwrap_or_else(|e| inconclusive(&format!("spawn fuzz target: {}", e)))));
         }
         let mut executed = 0u64;
         let mut cov = 0u64;
         let mut corpus_units = 0u64;
         let mut failure: Option<Failure> = None;
-        for (w, arts, child) in children {
-            let out = child.wait_with_output().unwrap_or_else(|e| inconclusive(&format!("wait: {}", e)));
-            let err = String::from_utf8_lossy(&out.stderr).into_owned();
+        for (w, arts, log, mut child) in children {
+            let status = child.wait().unwrap_or_else(|e| inconclusive(&format!("wait: {}", e)));
+            let err = String::from_utf8_lossy(&std::fs::read(&log).unwrap_or_default()).into_owned();
             executed += stat(&err, "stat::number_of_executed_units").unwrap_or(0);
             if let Some(l) = err.lines().rev().find(|l| l.contains("cov: ")) {
                 let grab = |k: &str| l.split(k).nth(1).and_then(|r| r.trim().split(|c: char| !c.is_ascii_digit()).next().and_then(|n| n.parse::<u64>().ok()));
                 cov = cov.max(grab("cov: ").unwrap_or(0));
                 corpus_units = corpus_units.max(grab("corp: ").unwrap_or(0));
             }
-            if !out.status.success() && failure.is_none() {
+            if !status.success() && failure.is_none() {
                 // a crash / timeout artifact: confirm through the stable replay path
                 let art = std::fs::read_dir(&arts).ok().and_then(|rd| rd.filter_map(|e| e.ok()).map(|e| e.path()).next());
                 let Some(art) = art else {
